@@ -13,6 +13,8 @@
 package main
 
 import (
+	"fmt"
+	"os"
 	"strconv"
 	"strings"
 	"unsafe"
@@ -29,6 +31,14 @@ func alignedBuf(n int) []byte {
 	return b[:n:n]
 }
 
+// tight (environment BYTES_TIGHT=1, used by the checkptr run): the slice handed to mbits is a
+// fresh heap allocation of exactly (off mod 8) + n bytes with the slice at its end, so that an
+// 8-byte access leaving the slice also leaves the allocation whenever that size is a malloc size
+// class (8, 16, 24, 32, 48, 64, ...) -- which a binary built with -d=checkptr reports as a fatal
+// "converted pointer straddles multiple allocations".  Every input is echoed to stderr first so
+// that the culprit is the last line before the fatal error.
+var tight = os.Getenv("BYTES_TIGHT") == "1"
+
 func mbitsCase(op string, off, n int, mem string) string {
 	buf := alignedBuf(len(mem))
 	copy(buf, mem)
@@ -36,6 +46,17 @@ func mbitsCase(op string, off, n int, mem string) string {
 		return "bad-case"
 	}
 	data := buf[off : off+n : off+n]
+	var tb []byte
+	if tight {
+		fmt.Fprintln(os.Stderr, "case", op, off, n, tr.Hex(mem))
+		al := off % 8
+		tb = make([]byte, al+n)
+		for i := 0; i < al; i++ {
+			tb[i] = 0xa5
+		}
+		copy(tb[al:], buf[off:off+n])
+		data = tb[al : al+n : al+n]
+	}
 	var ret int
 	p := tr.Catch(func() {
 		switch op {
@@ -49,6 +70,14 @@ func mbitsCase(op string, off, n int, mem string) string {
 	})
 	if p != "" {
 		return p
+	}
+	if tight {
+		copy(buf[off:off+n], data)
+		for i := 0; i < off%8; i++ {
+			if tb[i] != 0xa5 {
+				buf[off-1] ^= 0xff // report a write in front of the slice as a changed guard byte
+			}
+		}
 	}
 	if op == "Z" {
 		return strconv.Itoa(ret) + " " + tr.Hex(string(buf))
